@@ -934,10 +934,22 @@ package logqlengine
 
 // Frames only (assumed): compiling a template and fetching a scratch buffer allocate; they do not
 // write the stage being built.
+// Every stage gets a template of its own, parsed from its own text and bound to the functions
+// that read that stage's current line and timestamp.
 //@ func compileTemplate
+//@   capture nw = call(template.New, 0)
+//@   capture op = call(*.Option, 0)
+//@   capture fn = call(tmplFunctions, 0)
+//@   capture fu = call(*.Funcs, 0)
+//@   capture ps = call(*.Parse, 0)
+//@   modifies nothing
+//@   ensures[bound-to-this-stages-line-and-time] fn_called && same(fn_a0, currentTimestamp) && same(fn_a1, currentLine) && fu_called && same(fu_a0, fn_r0)
+//@   ensures[a-template-of-its-own] nw_called && op_called && op_recv == nw_r0 && fu_recv == op_r0 && ps_called && ps_recv == fu_r0
+//@   ensures[parsed-from-this-text] ps_a0 == tmpl && ret0 == ps_r0 && ret1 == ps_r1
+//@ func tmplFunctions
 //@   trusted
 //@   modifies nothing
-//@   ensures ret1 == nil ==> ret0 != nil
+//@   ensures ret0 != nil
 //@ func getTemplateBuffer
 //@   trusted
 //@   modifies nothing
